@@ -16,7 +16,8 @@ RULE = ("Histories = key set and modulus as in C11, initial value in {default, s
         "empty}; samples are arrays (or lists) cast to the key dtype by the API.  Oracle = collections.Counter restricted to "
         "the key set plus the initial values, read back with counter[keys] after every batch.  Metamorphic sub-check: the same "
         "multiset of samples under a different modulus, permuted, and split into batches differently gives identical totals.  "
-        "Non-trivial = at least two batches, a batch containing absent samples, and a non-default initial state.")
+        "Non-trivial = at least two batches, a batch containing absent samples, and a non-default initial state."
+        "  Initial per-key totals also as explicitly typed arrays (uint64 / int64 far above 2**53, int32, uint16, float64); key arrays and read-back totals are overwritten by the caller afterwards.")
 ASSUMPTIONS = ["samples are representable in the key dtype (a wider-dtype sample that wraps onto a key is outside the stated domain)"]
 
 
